@@ -55,9 +55,9 @@ PLAIN = [
     ("ref_bool", "&v.b", "Seen::Bool(v.b)", "bool"),
     ("box_u16", "Box::new(v.u as u16)", "Seen::U64((v.u as u16) as u64)", "u64"),
     ("box_str", "v.s.clone().into_boxed_str()", "Seen::Str(v.s.clone())", "str"),
-    ("display_fn", "tracing::field::display(&v.s)", "Seen::Debug(format!(\"{}\", v.s))", "debug"),
-    ("debug_fn", "tracing::field::debug(&v.s)", "Seen::Debug(format!(\"{:?}\", v.s))", "debug"),
-    ("debug_fn_f", "tracing::field::debug(v.f)", "Seen::Debug(format!(\"{:?}\", v.f))", "debug"),
+    ("display_fn", "tracing::field::display(&v.s)", "Seen::Debug(disp3(&v.s))", "debug"),
+    ("debug_fn", "tracing::field::debug(&v.s)", "Seen::Debug(dbg3(&v.s))", "debug"),
+    ("debug_fn_f", "tracing::field::debug(v.f)", "Seen::Debug(dbg3(&v.f))", "debug"),
     ("error", "(&v.err as &(dyn std::error::Error + 'static))", "Seen::Error(v.err.chain())", "error"),
 ]
 # expressions usable behind the % sigil (Display) and the ? sigil (Debug)
@@ -81,27 +81,37 @@ def rs_str(s):
     return '"' + s.replace("\\", "\\\\").replace('"', '\\"') + '"'
 
 
-def gen_form(rng, fid):
+def gen_form(rng, fid, force=None):
+    """force = dict(kind, lvl, prefix (subset of "ntp"), first (field form of the first field, or
+    "msgonly" / "none"), rest (bool)): one cell of the grid of macro arms (level shorthand x prefix
+    combination x shape of the first field); everything else stays random."""
     f = Form()
     f.id = fid
     r = rng.random()
     f.kind = "Event" if r < 0.55 else ("Span" if r < 0.92 else "Enabled")
     lvl = rng.choice(LEVELS)
-    f.level = lvl[1]
     shorthand = rng.random() < 0.6
+    if force:
+        f.kind = force["kind"]
+        lvl = LEVELS[force["lvl"]]
+        shorthand = True
+    f.level = lvl[1]
     pre = []           # statements before the macro
     ticks = 0
     f.target = None
     f.name = None
     f.parent = "Contextual"
     prefix = []
-    if f.kind == "Event" and rng.random() < 0.25:
+    r_n, r_t, r_p = rng.random() < 0.25, rng.random() < 0.4, rng.random() < 0.35
+    if force:
+        r_n, r_t, r_p = "n" in force["prefix"], "t" in force["prefix"], "p" in force["prefix"]
+    if f.kind == "Event" and r_n:
         f.name = f"ev{fid}"
         prefix.append(f"name: {rs_str(f.name)}")
-    if rng.random() < 0.4:
+    if r_t:
         f.target = rng.choice(TARGETS)
         prefix.append(f"target: {rs_str(f.target)}")
-    if f.kind != "Enabled" and rng.random() < 0.35:
+    if f.kind != "Enabled" and r_p:
         pk = rng.choice(["None", "&px.parent", "px.parent.id()"])
         f.parent = "Root" if pk == "None" else "Explicit"
         if f.kind == "Span" and pk == "None":
@@ -110,6 +120,8 @@ def gen_form(rng, fid):
 
     # fields
     nfields = rng.choice([0, 1, 1, 2, 2, 3, 3, 4, 5, 6]) if f.kind != "Enabled" else rng.choice([0, 0, 1, 2, 3])
+    if force:
+        nfields = (0 if force["first"] in ("msgonly", "none") else 1) + (rng.choice([1, 2]) if force["rest"] else 0)
     used = set()
     fields_src = []
     declared = []      # list of alternatives lists (rust)
@@ -127,7 +139,7 @@ def gen_form(rng, fid):
         return None
 
     # a few wide forms: more than 32 fields in one value set
-    wide = f.kind != "Enabled" and rng.random() < 0.04
+    wide = f.kind != "Enabled" and rng.random() < 0.04 and not force
     if wide:
         for w in range(rng.randint(33, 40)):
             k = rng.choice([p for p in PLAIN if p[0] in ("u8", "i16", "u64", "i64", "bool", "str", "f64", "u128")])
@@ -137,8 +149,13 @@ def gen_form(rng, fid):
             methods.add(k[3])
             ticks += 1
         nfields = 0
-    for _ in range(nfields):
-        form = rng.choice(["ident", "ident", "ident", "dotted", "literal", "const", "raw", "short", "short_sigil", "empty"] if f.kind != "Enabled" else ["ident", "dotted"])
+    for fi in range(nfields):
+        form = rng.choice(["ident", "ident", "ident", "dotted", "literal", "const", "raw", "short", "short_sigil", "ident_sigil", "empty"] if f.kind != "Enabled" else ["ident", "dotted"])
+        forced_sigil = None
+        if force and fi == 0 and force["first"] not in ("msgonly", "none"):
+            form = force["first"]
+            if form in ("?", "%"):
+                forced_sigil, form = form, "ident_sigil"
         if f.kind == "Enabled":
             n = fresh(IDENTS if form == "ident" else DOTTED)
             if n is None:
@@ -180,6 +197,19 @@ def gen_form(rng, fid):
             declared.append(alts)
             empties.append(alts[0])
             continue
+        if form == "ident_sigil":
+            # sigil shorthand over a plain local (`?q3`): the field is named after the variable
+            var = f"q{len(pre)}_{len(fields_src)}"
+            sg = forced_sigil or rng.choice("%?")
+            e = rng.choice(DISPLAYABLE if sg == "%" else DEBUGGABLE)
+            pre.append(f"let {var} = {e};")
+            fields_src.append(f"{sg}{var}")
+            fn3 = "disp3" if sg == "%" else "dbg3"
+            expect.append(([var], f"Seen::Debug({fn3}(&{e}))"))
+            declared.append([var])
+            methods.add("debug")
+            sigil = True
+            continue
         if form in ("short", "short_sigil"):
             # shorthand field `pN.val` (dotted path through a Probe whose Deref ticks)
             var = f"p{ticks}"
@@ -194,8 +224,8 @@ def gen_form(rng, fid):
                 e = rng.choice(DISPLAYABLE if sg == "%" else DEBUGGABLE)
                 pre.append(f"let {var} = Probe::new(ctr, {ticks}, {e});")
                 fields_src.append(f"{sg}{var}.val")
-                fmt = "{}" if sg == "%" else "{:?}"
-                expect.append(([f"{var}.val"], f"Seen::Debug(format!(\"{fmt}\", {e}))"))
+                fn3 = "disp3" if sg == "%" else "dbg3"
+                expect.append(([f"{var}.val"], f"Seen::Debug({fn3}(&{e}))"))
                 methods.add("debug")
                 sigil = True
             declared.append([f"{var}.val"])
@@ -206,13 +236,13 @@ def gen_form(rng, fid):
         if r2 < 0.2:
             e = rng.choice(DISPLAYABLE)
             fields_src.append(f"{name_src} = %ctr.tick({ticks}, {e})")
-            expect.append((alts, f"Seen::Debug(format!(\"{{}}\", {e}))"))
+            expect.append((alts, f"Seen::Debug(disp3(&{e}))"))
             methods.add("debug")
             sigil = True
         elif r2 < 0.4:
             e = rng.choice(DEBUGGABLE)
             fields_src.append(f"{name_src} = ?ctr.tick({ticks}, {e})")
-            expect.append((alts, f"Seen::Debug(format!(\"{{:?}}\", {e}))"))
+            expect.append((alts, f"Seen::Debug(dbg3(&{e}))"))
             methods.add("debug")
             sigil = True
         else:
@@ -226,7 +256,10 @@ def gen_form(rng, fid):
     # message (events only)
     msg_src = None
     msg_expect = None
-    if f.kind == "Event" and (rng.random() < 0.6 or not fields_src):
+    want_msg = rng.random() < 0.6 or not fields_src
+    if force:
+        want_msg = force["first"] == "msgonly" or (force["rest"] and rng.random() < 0.7) or not fields_src
+    if f.kind == "Event" and want_msg:
         m = rng.choice(["static", "fmt", "fmt2", "capture", "width"])
         if m == "static":
             text = f"static message {fid}"
@@ -253,22 +286,28 @@ def gen_form(rng, fid):
             ticks += 2
     if f.kind == "Event" and msg_src is not None:
         declared = [["message"]] + declared
-        expect = [(["message"], f"Seen::Debug({msg_expect})")] + expect
+        expect = [(["message"], f"Seen::Debug(msg3({msg_expect}))")] + expect
         methods.add("debug")
 
     # The level shorthands take `name:`/`target:`/`parent:` prefixes only when the first field starts
     # with a plain identifier (`k = ..`); other first fields (dotted, literal, constant names, sigil
     # or dotted shorthand) are a macro-parsing ambiguity there, so such forms use event! instead.
     import re
+    # (measured on this tree: a sigil shorthand over a single identifier, `?x` / `%x`, is accepted
+    # behind every prefix combination, except behind `parent:` alone when nothing follows it)
+    first_sigil_ident = bool(fields_src) and re.match(r"^[?%][a-z_][a-z0-9_]*$", fields_src[0]) is not None
     if f.kind == "Event" and shorthand and prefix and fields_src and not re.match(r"^(r#)?[a-z_][a-z0-9_]* =", fields_src[0]):
-        shorthand = False
+        parent_only = all(p.startswith("parent:") for p in prefix)
+        rest = len(fields_src) > 1 or msg_src is not None
+        if not (first_sigil_ident and (rest or not parent_only)):
+            shorthand = False
     # assemble the invocation
     if f.kind == "Event":
         mac = f"tracing::{lvl[2]}!" if shorthand else "tracing::event!"
         head = list(prefix)
         if not shorthand:
             head.append(f"Level::{lvl[0]}")
-        braces = msg_src is not None and fields_src and rng.random() < 0.3
+        braces = msg_src is not None and fields_src and rng.random() < 0.3 and not (first_sigil_ident and prefix and shorthand)
         body = []
         if braces:
             body.append("{ " + ", ".join(fields_src) + " }")
@@ -357,6 +396,18 @@ def main():
         n = a.forms or 300
     rng = random.Random(seed)
     forms = [gen_form(rng, i) for i in range(n)]
+    # the grid of macro arms: every level shorthand x every prefix combination x the shapes of a
+    # first field the shorthands accept there (k = v, ?x, %x, a message only / no field at all),
+    # with and without more fields behind it
+    for kind, prefixes, firsts in (("Event", ["", "n", "t", "p", "nt", "np", "tp", "ntp"], ["ident", "?", "%", "msgonly"]), ("Span", ["", "t", "p", "tp"], ["ident", "?", "none"])):
+        for lv in range(5):
+            for pf in prefixes:
+                for first in firsts:
+                    for rest in (False, True):
+                        if first in ("msgonly", "none") and rest:
+                            continue
+                        forms.append(gen_form(rng, len(forms), dict(kind=kind, lvl=lv, prefix=pf, first=first, rest=rest)))
+    n = len(forms)
     text = emit(forms, seed)
     out = OUT if a.tier != "thorough" else OUT.replace("corpus.rs", "corpus_t.rs")
     globals()["OUT"] = out
